@@ -26,6 +26,15 @@ func main() {
 		cmdDump(os.Args[2:])
 	case "calls":
 		cmdCalls(os.Args[2:])
+	case "tags":
+		e, err := loadEngine("/repo", nil)
+		if err != nil {
+			fmt.Println(err)
+			os.Exit(2)
+		}
+		for i := 1; i < e.u.nextTag; i++ {
+			fmt.Println(i, typeStr(e.u.tagTypes[i]))
+		}
 	case "replay":
 		os.Exit(cmdReplay(os.Args[2:]))
 	case "selftest":
